@@ -1,1 +1,145 @@
+(* props/C34.v — property C34: complementary limit_ratio selections partition the input.
+
+   "For any input vector and any ratio r in [0, 1], limit_ratio(r, v) and limit_ratio(r - 1, v)
+    select disjoint sets of samples whose union is v, and whether a sample is selected depends
+    only on its labels. Raising r never deselects a sample."
+
+   Model: model/LimitRatio.v over binary64 primitive floats (add_ratio_sample =
+   HashRatioSampler.AddRatioSampleWithOffset, sample_offset = SampleOffset, limit_ratio = the
+   LIMIT_RATIO branch of aggregationK, complement r = r - 1 in float64).
+
+   FULL STATEMENT of the partition clause (false of the faithful model, see C34_partition_refuted):
+     forall r off, 0 <= r <= 1 -> 0 <= off <= 1 ->
+       xorb (add_ratio_sample r off) (add_ratio_sample (r - 1) off) = true.
+   What is proved instead: it fails (C34_partition_refuted, C34_offset_one_refuted); it holds
+   exactly off the gap between r and fl(1 + fl(r - 1)) for offsets in [0,1)
+   (C34_partition_gap_exact), hence whenever fl(1 + fl(r - 1)) = r (C34_partition_partial), and
+   the same for whole vectors through the engine model (C34_partition_vector_partial).
+   Monotonicity and labels-only hold in full (all binary64 values, NaN and infinities included). *)
+From Coq Require Import ZArith List Bool Floats.
 From Verif Require Import model.LimitRatio.
+From Verif Require Import proof.LimitRatioProofs.
+Import ListNotations.
+
+Local Open Scope float_scope.
+
+(* ---- partition: refuted ---- *)
+
+(* an offset of [0,1) selected by both r and r - 1 (r = 0.1, off = 0.09999999999999998) *)
+Theorem C34_partition_refuted :
+  exists r off, (0 <=? r) && (r <=? 1) = true /\ (0 <=? off) = true /\ (off <? 1) = true /\
+    xorb (add_ratio_sample r off) (add_ratio_sample (complement r) off) = false.
+Proof. exact partition_refuted. Qed.
+
+Example C34_refuted_both :   (* r = 0.1: offset 0.09999999999999998 is selected twice *)
+  add_ratio_sample 0x1.999999999999ap-4 0x1.9999999999998p-4 = true /\
+  add_ratio_sample (complement 0x1.999999999999ap-4) 0x1.9999999999998p-4 = true.
+Proof. vm_compute. split; reflexivity. Qed.
+Example C34_refuted_neither : (* r = 0.3: offset 0.3 is selected by neither *)
+  add_ratio_sample 0x1.3333333333333p-2 0x1.3333333333333p-2 = false /\
+  add_ratio_sample (complement 0x1.3333333333333p-2) 0x1.3333333333333p-2 = false.
+Proof. vm_compute. split; reflexivity. Qed.
+
+(* second shape: SampleOffset maps the hashes >= 2^64 - 1024 to exactly 1.0, and no ratio of
+   [0,1] selects the offset 1.0 — so for r = 1 such a series is in neither selection *)
+Theorem C34_offset_one_refuted :
+  sample_offset (2 ^ 64 - 1) = 1 /\
+  (forall r, (0 <=? r) = true -> (r <=? 1) = true -> add_ratio_sample r 1 = false) /\
+  add_ratio_sample (complement 1) 1 = false.
+Proof.
+  split; [exact (proj1 offset_one_reachable)|].
+  split; [exact offset_one_unselected|]. vm_compute. reflexivity.
+Qed.
+
+(* ---- partition: what does hold ---- *)
+
+(* exact characterisation: for r in [0,1] and an offset in [0,1), exactly one of r and r - 1
+   selects the offset iff the offset is not between the boundaries r and fl(1 + fl(r - 1)) *)
+Theorem C34_partition_gap_exact : forall r off,
+  (0 <=? r) = true -> (r <=? 1) = true -> (0 <=? off) = true -> (off <? 1) = true ->
+  xorb (add_ratio_sample r off) (add_ratio_sample (complement r) off) = negb (in_gap r off).
+Proof. exact partition_iff_not_in_gap. Qed.
+
+(* partial: the partition holds whenever the complement is exact, fl(1 + fl(r - 1)) = r
+   (missing for the full statement: inexact complements — refuted above — and offset 1.0) *)
+Theorem C34_partition_partial : forall r off,
+  (0 <=? r) = true -> (r <=? 1) = true -> (0 <=? off) = true -> (off <? 1) = true ->
+  (complement_boundary r =? r) = true ->
+  xorb (add_ratio_sample r off) (add_ratio_sample (complement r) off) = true.
+Proof. exact partition_partial. Qed.
+
+Example C34_partial_nonvacuous :  (* r = 0.75 and r = 0.7 have exact complements; boundary offsets *)
+  (complement_boundary 0x1.8p-1 =? 0x1.8p-1) = true /\
+  (complement_boundary 0x1.6666666666666p-1 =? 0x1.6666666666666p-1) = true /\
+  add_ratio_sample 0x1.8p-1 0x1.8p-1 = false /\ add_ratio_sample (complement 0x1.8p-1) 0x1.8p-1 = true /\
+  add_ratio_sample 0x1.8p-1 0x1.7ffffffffffffp-1 = true /\
+  add_ratio_sample (complement 0x1.8p-1) 0x1.7ffffffffffffp-1 = false.
+Proof. vm_compute. repeat split. Qed.
+
+(* a usable sufficient condition: every ratio in [1/2, 1] has an exact complement (Sterbenz),
+   so limit_ratio(r) / limit_ratio(r - 1) are complementary for r >= 0.5 on offsets of [0,1) *)
+Theorem C34_partition_upper_half : forall r off,
+  (0x1p-1 <=? r) = true -> (r <=? 1) = true -> (0 <=? off) = true -> (off <? 1) = true ->
+  xorb (add_ratio_sample r off) (add_ratio_sample (complement r) off) = true.
+Proof. exact partition_upper_half. Qed.
+
+Example C34_upper_half_nonvacuous :   (* r = 0.7, off = 0.7 and its predecessor *)
+  (0x1p-1 <=? 0x1.6666666666666p-1) = true /\
+  add_ratio_sample 0x1.6666666666666p-1 0x1.6666666666666p-1 = false /\
+  add_ratio_sample (complement 0x1.6666666666666p-1) 0x1.6666666666666p-1 = true /\
+  add_ratio_sample 0x1.6666666666666p-1 0x1.6666666666665p-1 = true /\
+  add_ratio_sample (complement 0x1.6666666666666p-1) 0x1.6666666666665p-1 = false.
+Proof. vm_compute. repeat split. Qed.
+
+(* the same for a whole vector through the engine model: if no series' offset falls into the
+   gap (in particular if the complement is exact) and all offsets are in [0,1), then
+   limit_ratio(r, v) and limit_ratio(r - 1, v) both succeed, are sub-vectors of v, and every
+   sample of v is in exactly one of them.  `hash` is the labels.Hash oracle. *)
+Theorem C34_partition_vector_partial : forall (L P : Type) (hash : L -> Z) r (v : list (L * P)),
+  (0 <=? r) = true -> (r <=? 1) = true ->
+  (forall s, In s v ->
+     let off := sample_offset (hash (fst s)) in
+     (0 <=? off) = true /\ (off <? 1) = true /\ in_gap r off = false) ->
+  exists a b,
+    limit_ratio L P hash r v = Selected a /\ limit_ratio L P hash (complement r) v = Selected b /\
+    (forall s, In s v -> (In s a <-> ~ In s b)) /\ incl a v /\ incl b v.
+Proof. exact partition_vector. Qed.
+
+Example C34_vector_nonvacuous :  (* r = 0.5 on three series: one below, one at, one above the boundary *)
+  let hash := fun l : Z => l in
+  let v := [(2 ^ 62, tt); (2 ^ 63, tt); (2 ^ 63 + 2 ^ 62, tt)]%Z in
+  limit_ratio Z unit hash 0x1p-1 v = Selected [(2 ^ 62, tt)]%Z /\
+  limit_ratio Z unit hash (complement 0x1p-1) v = Selected [(2 ^ 63, tt); (2 ^ 63 + 2 ^ 62, tt)]%Z /\
+  forallb (fun s => in_gap 0x1p-1 (sample_offset (hash (fst s)))) v = false.
+Proof. vm_compute. repeat split. Qed.
+
+(* ---- monotonicity: full, for all binary64 values ---- *)
+Theorem C34_monotone : forall r1 r2 off,
+  (0 <=? r1) = true -> (r1 <=? r2) = true ->
+  add_ratio_sample r1 off = true -> add_ratio_sample r2 off = true.
+Proof. exact monotone. Qed.
+
+Example C34_monotone_nonvacuous :
+  (0 <=? 0x1p-2) = true /\ (0x1p-2 <=? 0x1.8p-1) = true /\ add_ratio_sample 0x1p-2 0x1p-3 = true.
+Proof. vm_compute. repeat split. Qed.
+
+(* ---- labels only: full ---- *)
+(* Whether a sample is in the output of limit_ratio(f, .) is decided by its label set alone:
+   two samples with the same labels — whatever their values/payloads, positions, and whatever
+   else the two vectors contain — are both selected or both not. *)
+Theorem C34_labels_only : forall (L P : Type) (hash : L -> Z) f (v v' a a' : list (L * P)) (s s' : L * P),
+  limit_ratio L P hash f v = Selected a -> limit_ratio L P hash f v' = Selected a' ->
+  In s v -> In s' v' -> fst s = fst s' ->
+  (In s a <-> In s' a').
+Proof. exact labels_only. Qed.
+
+(* and the output is always a sub-vector of the input *)
+Theorem C34_selected_subvector : forall (L P : Type) (hash : L -> Z) f (v a : list (L * P)),
+  limit_ratio L P hash f v = Selected a -> incl a v.
+Proof. exact selected_sublist. Qed.
+
+Example C34_labels_only_nonvacuous :
+  let hash := fun l : Z => l in
+  limit_ratio Z Z hash 0x1p-1 [(2 ^ 62, 7); (2 ^ 63, 8)]%Z = Selected [(2 ^ 62, 7)]%Z /\
+  limit_ratio Z Z hash 0x1p-1 [(5, 0); (2 ^ 62, 99)]%Z = Selected [(5, 0); (2 ^ 62, 99)]%Z.
+Proof. vm_compute. split; reflexivity. Qed.
